@@ -2292,4 +2292,119 @@ theorem reads_edges (tabs : List DObj) (hl : ∀ o ∈ tabs, isTabRef o = true) 
   exact ⟨hE, fun he => hY.1 (hE.mp he)⟩
 
 
+/-! ## 8. an explicit column list: the select items are wired BY POSITION
+
+`INSERT INTO T (c1, …, cn) <select with n items>` / `CREATE VIEW T (c1, …, cn) AS …`: the listed columns are write columns of
+the target before the cleanup starts, their number equals the number of select items, so item `i` is wired to `ci`
+(`cleanupItem`, first branch). -/
+
+/-- the columns of a column list, as columns of the written table -/
+def listedCols (tp : DS × String) (cs : List String) : List Column := cs.map (fun c => Column.mk1 (Ident.escapeS c) (some tp))
+
+theorem addParent_same (r : String) (p : DS × String) : (Column.mk1 r (some p)).addParent p = Column.mk1 r (some p) := by
+  simp [Column.mk1, Column.addParent, insertParent]
+
+/-- `add_write_column(*cols)` on the bare target (as `Props.C13.addWriteColumns_bare`) -/
+theorem addWriteColumns_g0 (s nm : String) (al : Option String) (cols : List Column)
+    (hnd : ((cols.map (·.addParent (DS.table s nm, s ++ "." ++ nm))).map (·.key)).Nodup) :
+    WriteCols.WInv (g0 ⟨.table s nm, al⟩) (.table s nm) (cols.map (·.addParent (DS.table s nm, s ++ "." ++ nm))) cols.length
+      (addWriteColumns (g0 ⟨.table s nm, al⟩) cols) := by
+  have hB := WriteCols.WInv.base (g0 ⟨.table s nm, al⟩) (.table s nm) 0 (g0_nodes _) (g0_edges _)
+  have hwr : (g0 ⟨.table s nm, al⟩).tag (.ds (.table s nm)) .write = some true := by rw [g0_tag]; simp
+  have hws : (writeSet (g0 ⟨.table s nm, al⟩)).head? = some (.table s nm) := by
+    have := hB.tagSet .write
+    simp only [writeSet, this, hwr]; rfl
+  unfold addWriteColumns
+  rw [hws]
+  have := WriteCols.WInv.fold (B := g0 ⟨.table s nm, al⟩) (T := .table s nm)
+    (·.addParent (DS.table s nm, s ++ "." ++ nm)) cols [] 0 _ hB (by simpa using hnd)
+  simp only [List.nil_append, Nat.zero_add] at this
+  exact this
+
+theorem listedCols_addParent (tp : DS × String) (cs : List String) :
+    (listedCols tp cs).map (·.addParent tp) = listedCols tp cs := by
+  unfold listedCols
+  rw [List.map_map]
+  apply List.map_congr_left
+  intro c _
+  simp only [Function.comp, addParent_same]
+
+theorem listColumn_addParent (tp : DS × String) (cs : List String) :
+    (cs.map listColumn).map (·.addParent tp) = listedCols tp cs := by
+  unfold listedCols
+  rw [List.map_map]
+  apply List.map_congr_left
+  intro c _
+  simp only [Function.comp, listColumn, addParent_none]
+
+/-- the target holder of a statement with column list (no provider): the listed columns hang from the target, in order -/
+theorem writeTargetHolder_some (env : Env) (isInsert : Bool) (tgt : List String) (cs : List String)
+    (hp : env.prov.truthy = false) (s nm : String) (al : Option String) (hmk : mkTable env tgt none = ⟨.table s nm, al⟩) :
+    writeTargetHolder env isInsert tgt (some cs) = addWriteColumns (g0 ⟨.table s nm, al⟩) (cs.map listColumn) := by
+  have hB := WriteCols.WInv.base (g0 ⟨.table s nm, al⟩) (.table s nm) 0 (g0_nodes _) (g0_edges _)
+  have hwr : (g0 ⟨.table s nm, al⟩).tag (.ds (.table s nm)) .write = some true := by rw [g0_tag]; simp
+  have hrd : (g0 ⟨.table s nm, al⟩).tag (.ds (.table s nm)) .read ≠ some true := by rw [g0_tag]; simp
+  have hrm : removeWriteColumns (g0 ⟨.table s nm, al⟩) = g0 ⟨.table s nm, al⟩ := by
+    unfold removeWriteColumns
+    rw [hB.writeColumns hwr hrd]
+    rfl
+  unfold writeTargetHolder
+  simp only [hp, Bool.and_false, Bool.false_eq_true, if_false, hmk]
+  exact congrArg (fun g => addWriteColumns g (cs.map listColumn)) hrm
+
+theorem addWriteColumns_nil (g : LGraph) : addWriteColumns g [] = g := by
+  unfold addWriteColumns; split <;> rfl
+
+/-- the select extractor starts from the target with its listed columns again -/
+theorem initHolder_ctxOf_listed (s nm : String) (al : Option String) (cs : List String)
+    (hnd : ((listedCols (DS.table s nm, s ++ "." ++ nm) cs).map (·.key)).Nodup) :
+    initHolder (ctxOf (addWriteColumns (g0 ⟨.table s nm, al⟩) (cs.map listColumn))) =
+      addWriteColumns (g0 ⟨.table s nm, al⟩) (listedCols (DS.table s nm, s ++ "." ++ nm) cs) := by
+  have hW := addWriteColumns_g0 s nm al (cs.map listColumn) (by rw [listColumn_addParent]; exact hnd)
+  rw [listColumn_addParent] at hW
+  have hwr : (g0 ⟨.table s nm, al⟩).tag (.ds (.table s nm)) .write = some true := by rw [g0_tag]; simp
+  have hrd : (g0 ⟨.table s nm, al⟩).tag (.ds (.table s nm)) .read ≠ some true := by rw [g0_tag]; simp
+  have hcte : cteObjs (addWriteColumns (g0 ⟨.table s nm, al⟩) (cs.map listColumn)) = [] := by
+    unfold cteObjs objsOf
+    rw [hW.tagSet .cte, g0_tag]
+    simp
+  have hwc := hW.writeColObjs hwr hrd
+  have hwo : writeObjs (addWriteColumns (g0 ⟨.table s nm, al⟩) (cs.map listColumn)) = [⟨.table s nm, some nm⟩] := by
+    unfold writeObjs objsOf
+    rw [hW.tagSet .write, hwr]
+    rfl
+  unfold ctxOf initHolder
+  rw [hcte, hwo, hwc]
+  simp only [List.foldl_nil, List.foldl_cons]
+  split
+  · rename_i hemp
+    have : listedCols (DS.table s nm, s ++ "." ++ nm) cs = [] := List.isEmpty_iff.mp hemp
+    rw [this, addWriteColumns_nil]
+    rfl
+  · rfl
+
+/-! ### facts about a holder whose target owns the listed columns -/
+
+theorem wf_addWriteColumns (g : LGraph) (cols : List Column) (h : ExportLemmas.WF g) :
+    ExportLemmas.WF (addWriteColumns g cols) := by
+  unfold addWriteColumns
+  split
+  · exact h
+  · exact foldl_inv _ _ _ _ h (fun b a _ hb => ExportLemmas.wf_addEdge _ _ _ _ _ _ _ hb)
+
+theorem payOK_addWriteColumns (g : LGraph) (cols : List Column) (h : PayOK g)
+    (hok : ∀ c ∈ cols, ∀ t ∈ writeSet g, colOK (c.addParent (t, printedDS g t))) : PayOK (addWriteColumns g cols) := by
+  unfold addWriteColumns
+  split
+  · exact h
+  · rename_i t ht
+    have htin : t ∈ writeSet g := List.mem_of_mem_head? ht
+    apply foldl_inv (fun G => PayOK G) _ _ _ h
+    intro b a ha hb
+    apply payOK_addEdge _ _ _ _ _ _ _ hb
+    · intro c hc'; cases hc'
+    · intro c hc'
+      cases hc'
+      exact hok a.1 (List.fst_mem_of_mem_zipIdx ha) t htin
+
 end SqlLineage.ColumnsExact
